@@ -3,6 +3,7 @@ import PugProofs.C02.IfDoc
 import PugProofs.C02.EachDoc
 import PugModel.Gen.Tables
 import PugProofs.C03.Frame
+import PugModel.Tpl.Compile
 /-!
 # C02 — conditionals, case, each and while select and repeat exactly as pug prescribes
 
@@ -250,6 +251,56 @@ theorem C02_object_literal_order (kvs : List Val) (st st' : St) (v : Val) (h : c
       simp [Heap.getMap, List.getD]
     obtain ⟨h1, _, h3, _, _, _⟩ := g.rest
     exact ⟨ps, rfl, opMapPairs_length _ _ _ hp, hv, hnew, g.getArr, g.getMap, h1, h3⟩
+
+/-- two lists related element by element (same length, same positions) -/
+inductive Pairwise2 {α β : Type} (R : α → β → Prop) : List α → List β → Prop
+  | nil : Pairwise2 R [] []
+  | cons {a : α} {b : β} {l : List α} {r : List β} : R a b → Pairwise2 R l r → Pairwise2 R (a :: l) (b :: r)
+
+/-- a monadic map in the compiler's monad relates every input to its output -/
+theorem mapM_ok_forall₂ {α β : Type} (f : α → CM β) (R : α → β → Prop) (hf : ∀ a b, f a = .ok b → R a b) :
+    ∀ (l : List α) (r : List β), l.mapM f = .ok r → Pairwise2 R l r := by
+  intro l
+  induction l with
+  | nil => intro r h; simp [List.mapM_nil, pure, Except.pure] at h; subst h; exact .nil
+  | cons a rest ih =>
+    intro r h
+    simp only [List.mapM_cons, bind, Except.bind] at h
+    cases ha : f a with
+    | error e => simp [ha] at h
+    | ok b =>
+      simp only [ha] at h
+      cases hr : rest.mapM f with
+      | error e => simp [hr] at h
+      | ok bs =>
+        simp [hr, pure, Except.pure] at h
+        subst h
+        exact .cons (hf a b ha) (ih bs hr)
+
+/-- **C02 (the object literal, compile side).** For EVERY object literal (any keys the transpiler accepts, any values, any nesting) the
+transpiler emits ONE call of `__op__map` whose operands are, pair by pair and in the order written, the key as a string literal and
+the compiled value: no pair is dropped, merged or moved. With `C02_object_literal_order` (run side) and `C02_each_object_items`:
+`each` walks an object literal in the order it was written. -/
+theorem C02_object_literal_compiles (fuel : Nat) (env : CEnv) (kvs : List (String × JS.Expr)) (t : Option TExpr)
+    (h : compileExprF (fuel + 1) env (.obj kvs) = .ok t) :
+    ∃ r : List (List TExpr), t = some (.fcall "__op__map" r.flatten) ∧
+      Pairwise2 (fun (kv : String × JS.Expr) (x : List TExpr) => ∃ tv, x = [.lit (.str kv.1), tv]) kvs r := by
+  simp only [compileExprF, bind, Except.bind] at h
+  split at h
+  · cases h
+  · rename_i r hr
+    simp [pure, Except.pure] at h
+    refine ⟨r, h.symm, mapM_ok_forall₂ _ _ ?_ kvs r hr⟩
+    intro a b hab
+    obtain ⟨k, v⟩ := a
+    simp only at hab
+    split at hab
+    · cases hab
+    · split at hab
+      · cases hab
+      · rename_i tv _
+        simp [pure, Except.pure] at hab
+        exact ⟨tv, hab.symm⟩
 
 /-- **C02 (each over a missing or null collection renders nothing).** -/
 theorem C02_each_missing (v : Val) (hv : v = .nil ∨ v = .invalid) (st : St) :
